@@ -761,18 +761,11 @@ func main() {
 		normalize(src(spF.Body.List[1])) == normalize("if err != nil {\n\treturn err\n}")
 	w("Definition writer_validates_first : bool := %v.\n\n", okShape)
 
-	w("Definition gen_errors : list string := [")
-	for i, e := range genErrors {
-		if i > 0 {
-			w("; ")
-		}
-		w("\"%s\"%%string", strings.ReplaceAll(strings.ReplaceAll(normalize(e), "\"", "'"), "\\", "/"))
-	}
-	w("].\n\n")
 	// ---- every user of the store key and every caller of the two setters, repository-wide
 	type use struct{ file, fn, what string }
 	var keyUsers, callers []use
 	gateOK, gatePerm := false, ""
+	uniqueGuard := false
 	var walkDirs = []string{"x", "app"}
 	for _, d := range walkDirs {
 		filepath.Walk(filepath.Join(*repo, d), func(path string, info os.FileInfo, err error) error {
@@ -824,6 +817,15 @@ func main() {
 							gateOK = seenGate
 							break
 						}
+						// optional guard of the unique-keys list (same two guards as SetNetworkProperty), pinned shape
+						if strings.Contains(txt, "EnsureOldUniqueKeysNotRemoved") || strings.Contains(txt, "EnsureUniqueKeys") {
+							want := `if msg.NetworkProperties != nil { oldKeys := k.keeper.GetNetworkProperties(ctx).UniqueIdentityKeys newKeys := msg.NetworkProperties.UniqueIdentityKeys if removedOldKey := k.keeper.EnsureOldUniqueKeysNotRemoved(ctx, oldKeys, newKeys); removedOldKey != "" { return nil, fmt.Errorf("already existing key removed: %s", removedOldKey) } if notUniqueKey := k.keeper.EnsureUniqueKeys(ctx, oldKeys, newKeys); notUniqueKey != "" { return nil, fmt.Errorf("already existing key not unique found: %s", notUniqueKey) } }`
+							if txt == want && seenGate {
+								uniqueGuard = true
+							} else {
+								genErrors = append(genErrors, "msg server SetNetworkProperties: unrecognised unique-keys guard shape")
+							}
+						}
 					}
 				}
 			}
@@ -855,8 +857,17 @@ func main() {
 	w("(* every non-test, non-client function that touches the store key / calls a setter *)\n")
 	emitUses("store_key_users", keyUsers)
 	emitUses("setter_callers", callers)
-	w("Definition msg_gate_ok : bool := %v.\nDefinition msg_gate_perm : string := \"%s\"%%string.\n\n", gateOK, gatePerm)
+	w("Definition msg_gate_ok : bool := %v.\nDefinition msg_gate_perm : string := \"%s\"%%string.\n", gateOK, gatePerm)
+	w("(* does the message handler guard the unique-keys list like SetNetworkProperty does *)\nDefinition msg_unique_guard : bool := %v.\n\n", uniqueGuard)
 
+	w("Definition gen_errors : list string := [")
+	for i, e := range genErrors {
+		if i > 0 {
+			w("; ")
+		}
+		w("\"%s\"%%string", strings.ReplaceAll(strings.ReplaceAll(normalize(e), "\"", "'"), "\\", "/"))
+	}
+	w("].\n\n")
 	// helper fingerprints
 	w("Definition helper_fingerprints : list (string * string) :=\n  [")
 	type hp struct {
